@@ -1,5 +1,8 @@
 import Dashu.Props.C18
 import Dashu.Proofs.Ratio.FloatFinal
+import Dashu.Proofs.Ratio.FBigSpecRound
+import Dashu.Props.GenRatCmp
+import Dashu.Proofs.Cross.BitLen
 /-
   C18 ↔ C06: `simplest_from_f32/f64` composed with the IEEE round-to-nearest-even specification of
   builder-conv (`Dashu.Model.Conv.ieeeRoundRat`, `Dashu/Proofs/Conv/*`, read-only).  Kept apart from
@@ -65,5 +68,66 @@ example : floatDecode 8 23 0x3dcccccd = some (13421773, -27) ∧
     (Conv.ieeeRoundRat Conv.Ieee.binary32 .halfEven 1 10).1 = 0x3dcccccd := by decide
 
 example : Canon Conv.Ieee.binary32 13421773 (-27) := by unfold Canon; decide
+
+-- ------------------------------------------------------------------ C18 ↔ C14/C05: Repr::cmp
+
+/-- **the comparison the C18 model uses (`cmpQ`, cross multiplication) is the code of
+    rational/src/cmp.rs**: `repr_cmp::<false>` (`Ord for Repr`, what `lower.cmp(&upper)`,
+    `next > x.0`, `r.0 > mid` call) as REGENERATED from the source on this run
+    (`Dashu.Gen.q_repr_cmp`, sign pre-test, integer shortcut and bit-length filter included) returns
+    `cmpQ` for all numerators and positive denominators — composition of `Props/GenRatCmp`
+    (regenerated text = C14's model) with C14's `ratReprCmp_spec` (model = order of the values). -/
+theorem cmpQ_is_regenerated_repr_cmp (x y : Q) (hx : 0 < x.den) (hy : 0 < y.den) :
+    Dashu.Gen.q_repr_cmp false ⟨x.num, x.den⟩ ⟨y.num, y.den⟩ = cmpQ x y := by
+  rw [Dashu.Props.GenRatCmp.repr_cmp_is_cross_model]
+  have h : some (Dashu.Model.Cross.ratReprCmp false x.num x.den y.num y.den) =
+      some (compare (x.num * (y.den : Int)) (y.num * (x.den : Int))) :=
+    Dashu.Model.Cross.ratReprCmp_spec x.num hx y.num hy
+  exact Option.some.inj h
+
+example : Dashu.Gen.q_repr_cmp false ⟨1234, 5678⟩ ⟨1235, 5679⟩ = .lt := by decide
+
+-- ------------------------------------------------------------------ C18 ↔ C03: RoundsTo is specRound
+
+/-- **`ulpExp = t − p`** (`ilogQ` is `⌊log_B⌋`): builder-float's ulp exponent of `x ≠ 0` at `p`
+    digits is the binade `t` of `|x|` (`B^(t−1) ≤ |x| < B^t`) minus `p` — for every base `B ≥ 2` -/
+theorem ulpExp_is_binade_minus_precision (B : Nat) (hB : 2 ≤ B) (p : Nat) (x : Rat) (hx : x ≠ 0)
+    (t : Int) (h1 : (B : Rat) ^ (t - 1) ≤ |x|) (h2 : |x| < (B : Rat) ^ t) :
+    Float.ulpExp B p x = t - p :=
+  ulpExp_eq_binade B hB p x hx t h1 h2
+
+/-- **`RoundsTo` ↔ `Float.specRound`**: the rounding relation of C18's FBig clause is builder-float's
+    specification of correct rounding (the canonical representative of the C03 contract): `x ≠ 0`
+    rounds to `v` at `p` digits under `m` iff `v` is the value of `specRound B m p x`. -/
+theorem rounds_to_is_spec_round (B : Nat) (hB : 2 ≤ B) (m : FMode) (p : Nat) (x v : Rat)
+    (hx : x ≠ 0) : RoundsTo B m p x v ↔ v = (Float.specRound B m p x).1.toRat B :=
+  roundsTo_iff_specRound B hB m p x v hx
+
+/-- **`simplest_from_float` (FBig), stated with builder-float's `specRound`**: for every base
+    `b ≥ 2`, mode, precision `p ≥ 1` and non-zero float `signif·b^exp` of at most `p` digits, the
+    required result `r` is reduced, `specRound b mode p r` IS that float (as a value), and every
+    fraction whose `specRound` is that float is at most as simple as `r`. -/
+theorem simplest_from_fbig_spec_round (mode : RMode) (b : Nat) (hb : 2 ≤ b)
+    (signif exp : Int) (p : Nat) (hs : signif ≠ 0) (hp : 1 ≤ p)
+    (hdig : digitsB b (signif.natAbs + 1) signif.natAbs ≤ p) :
+    ∃ r, simplestFromFBig Quirks.none simplerSpec mode b signif exp p = .ok (some r) ∧ Reduced r ∧
+      (Float.specRound b mode.toF p r.val).1.toRat b = (signif : Rat) * (b : Rat) ^ exp ∧
+      ∀ (p' : Int) (s' : Nat), 0 < s' → p' ≠ 0 →
+        (Float.specRound b mode.toF p ((p' : Rat) / s')).1.toRat b = (signif : Rat) * (b : Rat) ^ exp →
+        AsSimple r ⟨p', s'⟩ := by
+  obtain ⟨r, h1, h2, h3, h4⟩ := Dashu.Props.C18.simplest_from_fbig_exact mode b hb signif exp p hs hp hdig
+  refine ⟨r, h1, h2, ?_, ?_⟩
+  · exact ((roundsTo_iff_specRound b hb mode.toF p r.val _ (roundsTo_ne_zero hb h3)).1 h3).symm
+  · intro p' s' hs' hp' hsr
+    have hx : (p' : Rat) / s' ≠ 0 :=
+      div_ne_zero (by exact_mod_cast hp') (by exact_mod_cast (by omega : s' ≠ 0))
+    exact h4 p' s' hs' ((roundsTo_iff_specRound b hb mode.toF p _ _ hx).2 hsr.symm)
+
+-- non-vacuity: 1/3 at 1 decimal digit: binade t = 0 (10^−1 ≤ 1/3 < 10^0), so ulpExp = 0 − 1
+example : Float.ulpExp 10 1 (1 / 3) = 0 - (1 : Nat) :=
+  ulpExp_is_binade_minus_precision 10 (by decide) 1 (1 / 3) (by norm_num) 0
+    (by rw [abs_of_pos (by norm_num)]; norm_num) (by rw [abs_of_pos (by norm_num)]; norm_num)
+-- … and the hypotheses of `simplest_from_fbig_spec_round` are those of `simplest_from_fbig_exact`
+example : digitsB 10 (5 + 1) 5 ≤ 1 ∧ (5 : Int) ≠ 0 := by decide
 
 end Dashu.Props.C18Link
